@@ -50,6 +50,12 @@ CHECKS["C13"] = ("respondent-level t / df / Student-t p (incomplete beta), Welch
 CHECKS["C14"] = ("respondent-level multiset of opposing numeric values -> weighted mean, population std-dev, median by literal repetition, std-err; vs. slice and strand scale outputs (Hypothesis)",
     "Generated-input search with partial / repeated / negative / unsorted numeric values and zero-count categories between populated ones: every row and column vector incl. subtotals, the four *_margin scalars on CAT x CAT, and strands. Two defects found and fixed (median at exact 50% split; strand median NaN vs None).",
     "Median only for integer counts; differences not judged; margins judged without hidden vectors.", "6 C14")
+CHECKS["C16"] = ("respondent-level column proportion / unconditional row share with row-dependent column missingness (Hypothesis)",
+    "Generated-input search over CAT/MR pairings, 2-D and every slice of 3-D cubes (missing table categories in front), with column answers made missing depending on the row answer so that conditional and unconditional shares differ; each base cell compared with 100 x col proportion / (members / eligible regardless of column answer); NaN for insertions. (The 3-D baseline defect was found by C06 and fixed.)",
+    "CA and numeric-array pairings are outside the statement's domain.", "6 C16")
+CHECKS["C17"] = ("statement's fraction cascade re-implemented + defining relation estimates = population x fraction x (table | within-date | 1) proportion, MoE from matching std-err; metamorphic population scaling (Hypothesis)",
+    "Generated-input search over all shapes of the filter block (absent, old style, new style, zeros, documented nulls), population values incl. None/0/fractional, categorical-date on rows / columns / neither / strand, with subtotals and differences. Two crashes found and fixed (categorical-date strand with a difference; two differences).",
+    "Proportions / std-errs of the same run serve as the population proportion (C03/C11 tie them to respondents); both-dimensions-categorical-date only fraction + linearity.", "6 C17")
 NOT_BUILT = {}
 
 def main():
